@@ -9,6 +9,7 @@ import (
 	"sort"
 	"strings"
 	"time"
+	"tsim/genfault"
 
 	"github.com/ethereum/go-ethereum/common"
 	ethtypes "github.com/ethereum/go-ethereum/core/types"
@@ -353,6 +354,7 @@ func (w *lcWorld) apply(op kernel.Op) {
 		if w.host.InBlock || w.host.Halted != "" {
 			return
 		}
+		genfault.Run(w.rec, w.host, int64(w.host.Height)+op.Arg(0))
 		for _, is := range w.host.ModuleRoundTrip() {
 			w.rec.Violate("C13", "roundtrip", "lifecycle:"+is.Key, "lifecycle world: %s", is.Detail)
 		}
